@@ -146,7 +146,7 @@ class Cases:
         elif op == "scen":
             self.ctx[cid] = [self.cur_par] if self.cur_par else []
             self.cur_scen = self.ctx[cid] + [text]
-        elif op in ("pay", "pay!", "payat", "payin", "score", "diff"):
+        elif op.rstrip("!") in ("pay", "payat", "payin", "score", "diff"):
             self.ctx[cid] = self.cur_scen + ([self.cur_par] if self.cur_par else [])
         else:
             self.ctx[cid] = [self.cur_par] if self.cur_par else []
@@ -307,13 +307,13 @@ def gen_tree(ctx, scale):
         c.add(par_line(dict(base, delay=d0)))
         hs = sorted(set(endorsed + [max(0, e - 1) for e in endorsed] + [e + 1 for e in endorsed if e + 1 <= tip] + [0, tip]))
         for e in hs:
-            c.add("payat %x" % e)
-            c.add("score %x" % e)
-            c.add("diff %x" % e)
+            c.add("payat! %x" % e)
+            c.add("score! %x" % e)
+            c.add("diff! %x" % e)
         bv = boundary_values(r, base)
         for e in endorsed:
             for _ in range(6):
-                c.add("payin %x %x %x" % (e, r.choice(bv), r.choice([0, ONE, 2 * ONE, r.choice(bv)])))
+                c.add("payin! %x %x %x" % (e, r.choice(bv), r.choice([0, ONE, 2 * ONE, r.choice(bv)])))
         # other parameter sets on the same tree
         for _ in range(6):
             p = rand_par(r, r.chance(4, 5))
@@ -322,8 +322,7 @@ def gen_tree(ctx, scale):
             c.add(par_line(p))
             c.add("pay!")
             for e in endorsed:
-                c.add("payat%s %x" % ("", e)) if p["ki"] > 0 and p["interval"] > 0 and p["thrN"] >= p["start"] \
-                    and p["thrK"] >= p["start"] else None
+                c.add("payat! %x" % e)
     return c
 
 
@@ -347,9 +346,51 @@ def fork_mark(lines, mres):
     return out
 
 
+def run_pure(model, H, lines, work, tag="pure"):
+    """model first (decides which calls run in a forked child), then the implementation"""
+    fm = os.path.join(work, tag + "_model.txt")
+    write_lines(fm, lines)
+    rc1, mres, _, merr = vlib.run_lines([model], fm)
+    fh = os.path.join(work, tag + "_impl.txt")
+    write_lines(fh, fork_mark(lines, mres))
+    rc2, ires, orc, ierr = vlib.run_lines([H], fh)
+    err = "" if rc1 == 0 and rc2 == 0 else "model rc=%d impl rc=%d %s" % (rc1, rc2, (merr + ierr)[-300:])
+    return mres, ires, orc, err, set(), []
+
+
+def run_tree(model, H, lines, work, tag="tree"):
+    """implementation first: the abstract view observed for each scenario is the model's input.
+    Every query runs in a forked child of the harness (a call may terminate the process)."""
+    fh = os.path.join(work, tag + "_impl.txt")
+    write_lines(fh, lines)
+    rc2, ires, orc, ierr = vlib.run_lines([H], fh)
+    mlines, skipped, views, builderr = [], set(), [], []
+    dead = False
+    for cid, text in lines:
+        op = text.split(" ", 1)[0]
+        if op == "scen":
+            res = ires.get(cid, "")
+            if res.startswith("ok "):
+                dead = False
+                mlines.append((cid, "scen " + res[3:]))
+                views.append(res[3:])
+            else:
+                dead = True
+                builderr.append("%s -> %s" % (text[:200], res[:200]))
+                skipped.add(cid)
+        elif op in ("par", "pardefault") or not dead:
+            mlines.append((cid, text))
+        else:
+            skipped.add(cid)
+    fm = os.path.join(work, tag + "_model.txt")
+    write_lines(fm, mlines)
+    rc1, mres, _, merr = vlib.run_lines([model], fm)
+    err = "" if rc1 == 0 and rc2 == 0 else "model rc=%d impl rc=%d %s" % (rc1, rc2, (merr + ierr)[-300:])
+    return mres, ires, orc, err, skipped, (views, builderr)
+
+
 def view_stats(cov, view):
-    toks = view.split()
-    for t in toks:
+    for t in view.split():
         if t.startswith("B"):
             es = t.split(":", 1)[1].split(",")
             cov["endorsed_blocks"] += 1
@@ -364,6 +405,21 @@ def view_stats(cov, view):
                 cov["max_relative_vbk_height"] = max(cov["max_relative_vbk_height"], max(hsv) - min(hsv))
 
 
+def is_tree(lines):
+    return any(l.split(" ", 1)[0] == "scen" for l in lines)
+
+
+def load_corpus(pure, tree):
+    d = os.path.join(vlib.VERIF, "corpus", "C14")
+    if not os.path.isdir(d):
+        return
+    for f in sorted(os.listdir(d)):
+        ls = [l.strip() for l in open(os.path.join(d, f)) if l.strip() and l[0] != "#"]
+        tgt = tree if is_tree(ls) else pure
+        for l in ls:
+            tgt.add(l)
+
+
 def run(ctx):
     ctx.prove()
     okm, model, mlog = vlib.build_model("Rewards")
@@ -376,91 +432,54 @@ def run(ctx):
         return
     H = hs["h_rewards"]
     scale = 1 if ctx.tier == "quick" else 12
+    pure = Cases("p")
+    tree = Cases("t")
     if ctx.replay and "lines" in ctx.replay:
-        pure = Cases("p")
-        tree = Cases("t")
-        tgt = tree if any(l.split(" ", 1)[0] == "scen" for l in ctx.replay["lines"]) else pure
+        tgt = tree if is_tree(ctx.replay["lines"]) else pure
         for l in ctx.replay["lines"]:
             tgt.add(l)
     else:
-        pure = Cases("p")
-        tree = Cases("t")
-        for f in sorted(os.listdir(os.path.join(vlib.VERIF, "corpus", "C14"))) \
-                if os.path.isdir(os.path.join(vlib.VERIF, "corpus", "C14")) else []:
-            ls = [l.strip() for l in open(os.path.join(vlib.VERIF, "corpus", "C14", f)) if l.strip() and l[0] != "#"]
-            tgt = tree if any(l.split(" ", 1)[0] == "scen" for l in ls) else pure
-            for l in ls:
-                tgt.add(l)
-        g = gen_pure(ctx, scale)
-        for _, t in g.lines:
+        load_corpus(pure, tree)
+        for _, t in gen_pure(ctx, scale).lines:
             pure.add(t)
-        g = gen_tree(ctx, scale)
-        for _, t in g.lines:
+        for _, t in gen_tree(ctx, scale).lines:
             tree.add(t)
 
-    bad = []          # (id, text, context lines, model, impl)
-    oracle = []
+    bad = []          # (text, context lines, model, impl)
+    oracle = []       # (context lines + text, oracle text)
     total = 0
-    # ---- pure: model first (decides which calls are run in a forked child), then the implementation
-    if pure.lines:
-        fm = os.path.join(ctx.work, "pure_model.txt")
-        write_lines(fm, pure.lines)
-        rc1, mres, _, merr = vlib.run_lines([model], fm)
-        fh = os.path.join(ctx.work, "pure_impl.txt")
-        write_lines(fh, fork_mark(pure.lines, mres))
-        rc2, ires, orc, ierr = vlib.run_lines([H], fh)
-        if rc1 != 0 or rc2 != 0:
-            ctx.broken.append("runner(pure): model rc=%d impl rc=%d %s" % (rc1, rc2, (merr + ierr)[-300:]))
-        for cid, text in pure.lines:
-            total += 1
-            if mres.get(cid) != ires.get(cid):
-                bad.append((cid, text, pure.ctx[cid], mres.get(cid), ires.get(cid)))
-        for cid, t in orc:
-            oracle.append((cid, t, pure))
-        ctx.cov["pure_outcomes"] = {k: sum(1 for v in mres.values() if v.startswith(k)) for k in ("ok", "throw", "abort", "fpe")}
-    # ---- trees: implementation first (the observed abstract view of each scenario is the model's input)
     vc = {"scenarios": 0, "endorsed_blocks": 0, "endorsements": 0, "endorsements_off_best_chain": 0,
           "blocks_with_duplicate_payout_info": 0, "max_relative_vbk_height": 0, "scenario_build_errors": 0}
-    if tree.lines:
-        fh = os.path.join(ctx.work, "tree_impl.txt")
-        write_lines(fh, tree.lines)
-        rc2, ires, orc, ierr = vlib.run_lines([H], fh)
-        mlines = []
-        dead = False
-        skipped = set()
-        for cid, text in tree.lines:
-            op = text.split(" ", 1)[0]
-            if op == "scen":
-                res = ires.get(cid, "")
-                vc["scenarios"] += 1
-                if res.startswith("ok "):
-                    dead = False
-                    mlines.append((cid, "scen " + res[3:]))
-                    view_stats(vc, res[3:])
-                else:
-                    dead = True
-                    vc["scenario_build_errors"] += 1
-                    ctx.broken.append("corr:scenario-build: %s -> %s" % (text[:200], res[:200]))
-                    skipped.add(cid)
-            elif op in ("par", "pardefault") or not dead:
-                mlines.append((cid, text))
-            else:
-                skipped.add(cid)
-        fm = os.path.join(ctx.work, "tree_model.txt")
-        write_lines(fm, mlines)
-        rc1, mres, _, merr = vlib.run_lines([model], fm)
-        if rc1 != 0 or rc2 != 0:
-            ctx.broken.append("runner(tree): model rc=%d impl rc=%d %s" % (rc1, rc2, (merr + ierr)[-300:]))
-        for cid, text in tree.lines:
+    for cs, runner, tag in ((pure, run_pure, "pure"), (tree, run_tree, "tree")):
+        if not cs.lines:
+            continue
+        mres, ires, orc, err, skipped, extra = runner(model, H, cs.lines, ctx.work, tag)
+        if err:
+            ctx.broken.append("runner(%s): %s" % (tag, err))
+        if tag == "tree":
+            views, builderr = extra
+            vc["scenarios"] = len(views) + len(builderr)
+            vc["scenario_build_errors"] = len(builderr)
+            for v in views:
+                view_stats(vc, v)
+            for b in builderr[:3]:
+                ctx.broken.append("corr:scenario-build: " + b)
+            ctx.cov["tree_nonempty_payouts"] = sum(1 for v in mres.values() if "=" in v)
+        byid = dict(cs.lines)
+        for cid, text in cs.lines:
             if cid in skipped:
                 continue
             total += 1
             if mres.get(cid) != ires.get(cid):
-                bad.append((cid, text, tree.ctx[cid], mres.get(cid), ires.get(cid)))
+                bad.append((text, [l for l in cs.ctx[cid] if l], mres.get(cid), ires.get(cid)))
         for cid, t in orc:
-            oracle.append((cid, t, tree))
-        ctx.cov["tree_outcomes"] = {k: sum(1 for v in mres.values() if v.startswith(k)) for k in ("ok", "throw", "abort", "fpe")}
-        ctx.cov["tree_nonempty_payouts"] = sum(1 for i, v in mres.items() if "=" in v)
+            if cid in byid:
+                oracle.append(([l for l in cs.ctx[cid] if l] + [byid[cid]], t))
+        ctx.cov[tag + "_outcomes"] = {k: sum(1 for v in mres.values() if v.startswith(k))
+                                      for k in ("ok", "throw", "abort", "fpe")}
+        ctx.cov[tag + "_spec_evaluated_mismatches"] = sum(1 for v in mres.values() if "SPEC-MISMATCH" in v)
+        for cid, text in cs.lines[:2] + cs.lines[-1:]:
+            ctx.sample({"line": text[:300], "model": (mres.get(cid) or "")[:200], "impl": (ires.get(cid) or "")[:200]})
     ctx.cov["scenario_views"] = vc
     ctx.cov["op_histogram"] = {k: pure.hist.get(k, 0) + tree.hist.get(k, 0) for k in set(pure.hist) | set(tree.hist)}
     ctx.cov["evaluations"] = total
@@ -475,42 +494,35 @@ def run(ctx):
     ctx.cov["disagreements_checked"] = total
     ctx.cov["traces_validated_against_impl"] = total - len(bad)
     ctx.cov["trusted_base"] = list(ASSUMPTIONS)
-    for cs in (pure, tree):
-        for cid, text in cs.lines[:2] + cs.lines[-1:]:
-            ctx.sample({"line": text[:300]})
     if not ctx.replay and tree.lines:
         if vc["endorsements_off_best_chain"] == 0 or vc["blocks_with_duplicate_payout_info"] == 0 or \
                 ctx.cov.get("tree_nonempty_payouts", 0) == 0:
-            ctx.broken.append("coverage: generated scenarios exercised no off-chain endorsement / duplicate payout info / payout")
+            ctx.broken.append("coverage: generated scenarios exercised no off-chain endorsement / duplicate payout "
+                              "info / non-empty payout")
 
     # direct oracle failures on the implementation: concrete failing inputs
-    for cid, t, cs in oracle[:3]:
-        text = dict(cs.lines)[cid]
-        ctx.violation({"kind": "input", "lines": cs.ctx[cid] + [text], "oracle": t,
+    for lines, t in oracle[:3]:
+        ctx.violation({"kind": "input", "lines": lines, "oracle": t,
                        "what": "direct property oracle failed on the implementation"})
-    # disagreements: re-run once (flakiness), then report the concrete input
-    for cid, text, cx, m, i in bad[:5]:
-        lines = [l for l in cx if l] + [text]
-        rep = Cases("t" if any(l.startswith("scen") for l in lines) else "p")
+    # disagreements: re-run the single case in isolation (excludes flakiness and order dependence), then report it
+    reported = 0
+    for text, cx, m, i in bad:
+        if reported >= 4:
+            break
+        lines = cx + [text]
+        rep = Cases("r")
         for l in lines:
             rep.add(l)
-        f1 = os.path.join(ctx.work, "rerun.txt")
-        write_lines(f1, rep.lines)
-        _, ir, _, _ = vlib.run_lines([H], f1)
+        runner = run_tree if is_tree(lines) else run_pure
+        mr, ir, _, _, _, _ = runner(model, H, rep.lines, ctx.work, "rerun")
         last = rep.lines[-1][0]
-        ml = []
-        for c2, t2 in rep.lines:
-            if t2.startswith("scen ") and ir.get(c2, "").startswith("ok "):
-                ml.append((c2, "scen " + ir[c2][3:]))
-            else:
-                ml.append((c2, t2))
-        write_lines(f1, ml)
-        _, mr, _, _ = vlib.run_lines([model], f1)
-        if mr.get(last) == ir.get(last) and not text.rstrip().split(" ")[0].endswith("!") and (m or "").split(" ")[0] not in ("abort", "fpe"):
+        if mr.get(last) == ir.get(last):
             continue   # not reproducible in isolation
-        ctx.violation({"kind": "input", "lines": lines, "model": m, "impl": i,
-                       "what": "implementation differs from the model of the specification "
-                               "(the model is proved equal to the reward specification under the stated bounds; "
-                               "SPEC-MISMATCH in the model line would flag a model/spec difference)"})
+        reported += 1
+        ctx.violation({"kind": "input", "lines": lines, "model": mr.get(last), "impl": ir.get(last),
+                       "what": "implementation differs from the model of the calculator, which is proved equal to "
+                               "the reward specification under the stated bounds (a SPEC-MISMATCH tag in the model "
+                               "result would flag a model/specification difference instead)"})
     if bad and not ctx.violations:
-        ctx.broken.append("corr:Rewards: first disagreeing input %s model=%s impl=%s" % (bad[0][1][:200], bad[0][3], bad[0][4]))
+        ctx.broken.append("corr:Rewards: first disagreeing input %s model=%s impl=%s (not reproducible in isolation)"
+                          % (bad[0][0][:200], bad[0][2], bad[0][3]))
